@@ -258,6 +258,13 @@ def main(mod):
     seed = int(os.environ.get("VERIF_SEED", "1"))
     try:
         rc = (getattr(mod, "check", None) or (lambda t, s, r: standard_check(mod, t, s, r)))(a.tier, seed, a.replay)
+    except core.CrashUnderTest as e:
+        # the code under test crashed the driver process: that is a violation of every property here (each promises an answer)
+        path = core.write_replay(mod.ID, {"property": mod.ID, "kind": "crash-under-test", "clause": "crash", "detail": e.what,
+                                          "reproduce": " ".join(e.cmd) + "   (harness built from /verif/harness against /repo; same seed => same inputs)",
+                                          "trace": e.trace})
+        print("VIOLATION property=%s replay=%s" % (mod.ID, path))
+        rc = 1
     except core.InternalError as e:
         print("INTERNAL-ERROR property=%s %s" % (mod.ID, str(e)[:2000]), file=sys.stderr)
         rc = 2
